@@ -22,7 +22,9 @@ pub enum Cause {
     TypedLaterChunk { j: u8 }, TypedWrongPassword, TypedFirstChunk,
 }
 #[derive(Clone, Debug, Serialize, Deserialize)]
-pub struct Case { pub cmd: Command, pub cause: Cause, pub prior: bool, pub inst: u64 }
+pub struct Case { pub cmd: Command, pub cause: Cause, pub prior: bool, pub inst: u64,
+    /// the output path is a symbolic link: to a file that does not exist yet (prior = false) or to the existing file (prior = true)
+    #[serde(default)] pub link: bool }
 
 pub struct Ids { pub alice: CliIdent, pub bob: CliIdent, pub carol: CliIdent }
 pub fn ids() -> &'static Ids { static I: OnceLock<Ids> = OnceLock::new(); I.get_or_init(|| Ids { alice: cli::make_ident("alice", 101, "alice-pw"), bob: cli::make_ident("bob", 102, "bob pw ü"), carol: cli::make_ident("carol", 103, "x") }) }
@@ -93,6 +95,8 @@ pub fn check(c: &Case) -> CheckResult {
     // prior state of the output path
     let out_name = if c.cause == SameInOut { if matches!(c.cmd, Decrypt | PassDecrypt) { "in.ktl" } else { "msg.txt" } } else if c.cmd == KeyGenerate { "newkeys.txt" } else { "out.bin" };
     let prior_content = if c.cause == SameInOut { sb.read(out_name) } else if c.prior { let p = if c.cmd == KeyGenerate { kr.clone().into_bytes() } else { gen::bytes_from(c.inst ^ 0xBEEF, 50 + sel % 100) }; sb.write(out_name, &p); Some(p) } else { None };
+    let linked = c.link && c.cause != SameInOut;
+    if linked { if c.prior { let _ = std::fs::rename(sb.path(out_name), sb.path("elsewhere.bin")); } let _ = std::os::unix::fs::symlink("elsewhere.bin", sb.path(out_name)); }
     let prior_ino = std::fs::metadata(sb.path(out_name)).ok().map(|m| m.ino());
     // argv / env
     let infile = if c.cause == MissingInput { "nofile.bin" } else if matches!(c.cmd, Decrypt | PassDecrypt) { "in.ktl" } else { "msg.txt" };
@@ -138,6 +142,7 @@ pub fn check(c: &Case) -> CheckResult {
         if after != prior_content { let a = after.clone().unwrap_or_default(); ensure!(bounds.contains(&a.len()) && a[..] == plain[..a.len()], "after a file with trailing bytes the output path holds {} bytes that are not a whole-chunk prefix of the plaintext", a.len()); }
         return ok(true, format!("{:?}/TrailingData/{}", c.cmd, if c.prior { "present" } else { "absent" }));
     }
+    if linked { ensure!(std::fs::symlink_metadata(sb.path(out_name)).map(|m| m.file_type().is_symlink()).unwrap_or(false), "the output path was a symbolic link ({}); after the failing invocation ({:?} / {:?}) the link is gone or replaced", if c.prior { "to an existing file" } else { "to a file that did not exist yet" }, c.cmd, c.cause); }
     match expect_prefix {
         Some(n) => { ensure!(after.as_deref() == Some(&plain[..n]), "a later chunk failed: the output path should hold exactly the {} authenticated bytes, it holds {:?} bytes", n, after.as_ref().map(|a| a.len())); }
         None => {
@@ -171,8 +176,9 @@ pub fn run(ctx: &Ctx) {
     let mut cases = Vec::new();
     let reps = ctx.n(4, 24);
     for cmd in [Command::Encrypt, Command::Decrypt, Command::PassEncrypt, Command::PassDecrypt, Command::KeyGenerate] { for cause in applicable(cmd) { for prior in [false, true] { for k in 0..reps {
-        cases.push(Case { cmd, cause: cause.clone(), prior, inst: ctx.seed.wrapping_mul(1000).wrapping_add(k * 7919 + cases.len() as u64) }); } } } }
-    ctx.sse_vec("cli_failure_matrix", &format!("5 commands x applicable causes x 2 prior states x {} instances", reps), cases, check);
+        cases.push(Case { cmd, cause: cause.clone(), prior, inst: ctx.seed.wrapping_mul(1000).wrapping_add(k * 7919 + cases.len() as u64), link: false }); }
+        cases.push(Case { cmd, cause: cause.clone(), prior, inst: ctx.seed.wrapping_mul(1000).wrapping_add(31 + cases.len() as u64), link: true }); } } }
+    ctx.sse_vec("cli_failure_matrix", &format!("5 commands x applicable causes x 2 prior states x {} instances, plus each once with the output path a symbolic link (dangling / to the existing file)", reps), cases, check);
     let seed = ctx.seed;
     ctx.pbt("lib_no_sink_calls_before_authentication", ctx.n(30_000, 600_000), || (super::c03::strat(PoolSel::KeySmall, seed, 3, 100), crate::gen::rsched_strategy()).prop_map(|(mut c, rs)| { c.rs = rs; c }), check_lib);
 }
